@@ -19,6 +19,9 @@
 (*   StopHung    the call is parked for ever (StopCompletes violated)         *)
 (*   StopPanicked the call panicked in the caller's goroutine (no action:     *)
 (*               always rejected)                                             *)
+(*   Waiters     the goroutines that were blocked in ExecutingTask.Wait()     *)
+(*               when the stop was requested (Pipeline: WaiterLock/Recv):     *)
+(*               each must have returned, all with the same error             *)
 (*   Census      goroutines of the task still alive after the stop           *)
 (*               (AllGoroutinesExit) mapped onto Pipeline's process states    *)
 (* The property checks are conjuncts of the actions, so an execution that     *)
@@ -46,6 +49,10 @@ BlankHq(t) == [n \in 1..MaxN |-> IF n <= Len(t.kinds) /\ t.kinds[n] = "alert"
 BlankRd(t) == [e \in 1..MaxE |-> IF e <= Len(t.edges) /\ t.kinds[t.edges[e].to] = "union"
                                    THEN [at |-> "emit", m |-> 0] ELSE NoRd]
 
+\* the recorded attempt's callers of ExecutingTask.Wait (at most NWaiters; the others count as returned)
+BlankWt(r) == [w \in Waiters |-> IF w <= r.waiters THEN [at |-> "wait", i |-> Len(r.topo.kinds), res |-> 0]
+                                  ELSE [at |-> "done", i |-> 0, res |-> 0]]
+
 TrInit ==
     /\ Len(Trace) >= 1 /\ Trace[1].ev = "Reset"
     /\ l = 2 /\ HWInit /\ cfg = Trace[1] /\ census = "none" /\ dev = {}
@@ -59,6 +66,8 @@ TrInit ==
     /\ sp = [at |-> "idle", i |-> 0]
     /\ accepted = {} /\ delivered = [n \in 1..MaxN |-> <<>>]
     /\ refused = 0 /\ dropped = {} /\ failed = FALSE /\ panicked = FALSE
+    /\ errch = [n \in 1..MaxN |-> 0] /\ fin = [n \in 1..MaxN |-> FALSE] /\ wmu = [n \in 1..MaxN |-> 0]
+    /\ wt = BlankWt(Trace[1])
 
 TrReset ==
     /\ IsEv("Reset")
@@ -73,8 +82,10 @@ TrReset ==
     /\ sp' = [at |-> "idle", i |-> 0]
     /\ accepted' = {} /\ delivered' = [n \in 1..MaxN |-> <<>>]
     /\ refused' = 0 /\ dropped' = {} /\ failed' = FALSE /\ panicked' = FALSE
+    /\ errch' = [n \in 1..MaxN |-> 0] /\ fin' = [n \in 1..MaxN |-> FALSE] /\ wmu' = [n \in 1..MaxN |-> 0]
+    /\ wt' = BlankWt(Ln)
 
-Internal == <<next, wp, wclosed, fk, lock, sdel, E, cur, fi, nerr, udone, dropped, panicked>>
+Internal == <<next, wp, wclosed, fk, lock, sdel, E, cur, fi, nerr, udone, dropped, panicked, errch, fin, wmu>>
 
 \* points acknowledged (nil error) and forked into the task; after the stop was requested only a
 \* daemon shutdown still owes delivery (Drain forks everything acknowledged; StopTask stops feeding)
@@ -82,14 +93,14 @@ TrAccept ==
     /\ IsEv("Accept")
     /\ sp.at = "idle" \/ (sp.at = "wait" /\ kind = "close")
     /\ accepted' = accepted \cup RangeSet(Ln.seqs)
-    /\ UNCHANGED <<topo, kind, Internal, pc, wb, hq, rd, mclosed, sp, delivered, refused, failed, cfg, census, dev>>
+    /\ UNCHANGED <<topo, kind, Internal, pc, wb, hq, rd, mclosed, sp, delivered, refused, failed, cfg, census, dev, wt>>
 
 \* a node returned an error because the driver made it (poison point / injected panic): from here on
 \* only termination is promised
 TrNodeFailed ==
     /\ IsEv("NodeFailed") /\ Ln.injected
     /\ failed' = TRUE
-    /\ UNCHANGED <<topo, kind, Internal, pc, wb, hq, rd, mclosed, sp, accepted, delivered, refused, cfg, census, dev>>
+    /\ UNCHANGED <<topo, kind, Internal, pc, wb, hq, rd, mclosed, sp, accepted, delivered, refused, cfg, census, dev, wt>>
 
 \* A node that fails although nothing was injected failed BECAUSE of the stop: there is no action for
 \* that (a graceful stop must not make nodes fail), the line is rejected.
@@ -99,7 +110,7 @@ TrStopCall ==
     /\ IsEv("StopCall")
     /\ sp.at = "idle"
     /\ sp' = [at |-> "wait", i |-> 0]
-    /\ UNCHANGED <<topo, kind, Internal, pc, wb, hq, rd, mclosed, accepted, delivered, refused, failed, cfg, census, dev>>
+    /\ UNCHANGED <<topo, kind, Internal, pc, wb, hq, rd, mclosed, accepted, delivered, refused, failed, cfg, census, dev, wt>>
 
 OutName(n) == CHOOSE o \in DOMAIN cfg.topo.outs : cfg.topo.outs[o] = n
 IsOut(n) == \E o \in DOMAIN cfg.topo.outs : cfg.topo.outs[o] = n
@@ -111,7 +122,7 @@ TrStopReturn ==
     /\ sp' = [at |-> "stopped", i |-> 0]
     /\ delivered' = [n \in 1..MaxN |-> IF IsOut(n) THEN RangesSeq(Ln.delivered[OutName(n)]) ELSE <<>>]
     /\ refused' = Ln.refused
-    /\ UNCHANGED <<topo, kind, Internal, pc, wb, hq, rd, mclosed, accepted, failed, cfg, census, dev>>
+    /\ UNCHANGED <<topo, kind, Internal, pc, wb, hq, rd, mclosed, accepted, failed, cfg, census, dev, wt>>
     /\ NothingInvented'
     /\ NoAcceptedLoss'
 
@@ -128,7 +139,21 @@ TrStopHungLoopback ==
     /\ PrintT(<<"KF-HIT", "loopback-stop-deadlock">>)
     /\ sp' = [at |-> "hung", i |-> 0]
     /\ dev' = dev \cup {"loopback-stop-deadlock"}
-    /\ UNCHANGED <<topo, kind, Internal, pc, wb, hq, rd, mclosed, accepted, delivered, refused, failed, cfg, census>>
+    /\ UNCHANGED <<topo, kind, Internal, pc, wb, hq, rd, mclosed, accepted, delivered, refused, failed, cfg, census, wt>>
+
+\* The goroutines that were already blocked in ExecutingTask.Wait() when the stop was requested (the task
+\* store keeps one per task): once the task has stopped each of them has returned - node.finished/err are
+\* sticky, any number of concurrent callers get the answer - and they all got the same error.
+TrWaiters ==
+    /\ IsEv("Waiters")
+    /\ sp.at = "stopped" /\ census = "none"
+    /\ wt' = [w \in Waiters |-> IF w <= cfg.waiters
+                                  THEN IF Ln.returned[w] THEN [at |-> "done", i |-> 0, res |-> Ln.errIds[w]]
+                                       ELSE [at |-> "wrecv", i |-> Len(topo.kinds), res |-> 0]
+                                  ELSE [at |-> "done", i |-> 0, res |-> Ln.errIds[1]]]
+    /\ UNCHANGED <<topo, kind, Internal, pc, wb, hq, rd, mclosed, sp, accepted, delivered, refused, failed, cfg, census, dev>>
+    /\ \A w \in Waiters : wt'[w].at = "done"
+    /\ WaitersAgree'
 
 \* goroutines of the task that are still alive (parked, motionless) after the stop returned, mapped
 \* onto the model's processes; AllGoroutinesExit = none.
@@ -155,7 +180,7 @@ TrCensus ==
                                      ELSE NoRd]
        /\ mclosed' = [n \in 1..MaxN |-> n \in Nodes /\ NK(n) = "union" /\ SigCollector \notin L]
     /\ census' = "done"
-    /\ UNCHANGED <<topo, kind, Internal, sp, accepted, delivered, refused, failed, cfg, dev>>
+    /\ UNCHANGED <<topo, kind, Internal, sp, accepted, delivered, refused, failed, cfg, dev, wt>>
     /\ AllDone'
 
 TrEnd ==
@@ -163,7 +188,8 @@ TrEnd ==
     /\ sp.at \in {"stopped", "hung"}
     /\ UNCHANGED <<vars, cfg, census, dev>>
 
-TrNext == TrReset \/ TrAccept \/ TrNodeFailed \/ TrStopCall \/ TrStopReturn \/ TrStopHungLoopback \/ TrCensus \/ TrEnd
+TrNext == TrReset \/ TrAccept \/ TrNodeFailed \/ TrStopCall \/ TrStopReturn \/ TrStopHungLoopback \/ TrWaiters
+          \/ TrCensus \/ TrEnd
 TrSpec == TrInit /\ [][TrNext]_tvars
 
 QuietAfterCensus == census = "done" => AllDone
